@@ -35,6 +35,7 @@ type Case16 struct {
 	Base    B       `json:"base"`
 	HasBase bool    `json:"has_base"`
 	Opts    []Opt16 `json:"opts"`
+	Ops     []Op    `json:"ops,omitempty"`   // neutral clause: setter calls applied after the parse, under both parsers
 	Pairs   []Pair  `json:"pairs,omitempty"` // skip-equals clause
 	Char    uint    `json:"char,omitempty"`  // encode-set effect clause: the code point placed in the components
 }
@@ -232,6 +233,13 @@ func triggered(o Opt16, c Case16, d0 parsed) bool {
 	if c.HasBase {
 		texts = append(texts, string(c.Base))
 	}
+	// setter values are inputs too
+	for _, op := range c.Ops {
+		texts = append(texts, string(op.Value))
+		if o.Name == "lax-host" && (op.Setter == spec.SetterHost || op.Setter == spec.SetterHostname) {
+			return true // whether the default parser rejects a host value is not decidable from the text: skip
+		}
+	}
 	any := func(f func(string) bool) bool {
 		for _, t := range texts {
 			if f(t) {
@@ -248,11 +256,22 @@ func triggered(o Opt16, c Case16, d0 parsed) bool {
 	case "single-percent":
 		return any(hasLonePercent)
 	case "collapse":
+		for _, op := range c.Ops {
+			// in a setter value there is no authority-introducing pair to exempt
+			v := removeTabNL(string(op.Value))
+			for i := 0; i+1 < len(v); i++ {
+				if (v[i] == '/' || v[i] == '\\') && (v[i+1] == '/' || v[i+1] == '\\') {
+					return true
+				}
+			}
+		}
 		return any(hasConsecutiveSlashes)
 	case "skip-drive":
 		return any(func(s string) bool { return strings.Contains(s, "|") })
 	case "special-schemes":
-		return any(func(s string) bool { return gen.SchemeOf(preprocess(s)) == o.Str })
+		return any(func(s string) bool {
+			return gen.SchemeOf(preprocess(s)) == o.Str || (len(c.Ops) > 0 && strings.Contains(strings.ToLower(removeTabNL(s)), o.Str))
+		})
 	case "lax-host":
 		return !d0.ok()
 	case "path-set", "query-set", "special-query-set", "fragment-set", "special-fragment-set":
@@ -640,7 +659,20 @@ func check16Neutral(c Case16, r *core.Rec) {
 		r.Failf("%s: no option's trigger is present in the input, yet url.NewParser(options) differs from the default parser: %s", where16(c), d)
 		return
 	}
+	// … and stays equal under setter calls whose values carry no trigger either
+	if got.ok() && d0.ok() {
+		for i, op := range c.Ops {
+			ApplySetter(got.u, op.Setter, string(op.Value))
+			ApplySetter(d0.u, op.Setter, string(op.Value))
+			r.Class("neutral:setter-" + spec.SetterNames[op.Setter])
+			if d := DiffObs(ObsOf(got.u), ObsOf(d0.u)); d != "" {
+				r.Failf("%s: no option's trigger is present, yet after %s the URL of url.NewParser(options) differs from the default parser's: %s", where16(c), histString(CaseHist{Input: c.Input, Base: c.Base, HasBase: c.HasBase, Ops: c.Ops}, i), d)
+				return
+			}
+		}
+	}
 	got = parse16(canonicalizer.New(opts...), c)
+	d0 = parse16(DefaultParser, c)
 	if d := sameOutcome(got, d0); d != "" {
 		r.Failf("%s: no option's trigger is present in the input, yet canonicalizer.New(options) differs from the default parser: %s", where16(c), d)
 	}
@@ -947,6 +979,19 @@ func Gen16(t *rapid.T) Case16 {
 		}
 	case "neutral":
 		genInput16(t, &c)
+		if rapid.IntRange(0, 1).Draw(t, "withSetters") == 0 {
+			if rapid.IntRange(0, 1).Draw(t, "richStart") == 0 {
+				c.Input, c.HasBase = B(gen.Pick(t, "nstart", []string{"http://u:p@h:81/p?q#f", "foo://u@h/p", "file:///C:/x", "http://h/", "foo:/p"})), false
+			}
+			for i, n := 0, rapid.IntRange(1, 3).Draw(t, "nsetters"); i < n; i++ {
+				w := rapid.IntRange(0, spec.NumSetters-1).Draw(t, "setter")
+				v := gen.SetterValue(t, "value", w)
+				if rapid.IntRange(0, 3).Draw(t, "escEnd") == 0 {
+					v = gen.Pick(t, "escValue", []string{"x%41", "%41", "a%2541", "%41%42", "a b%20", "%7e", "é%C3%A9", "%00"})
+				}
+				c.Ops = append(c.Ops, Op{Kind: "set", Setter: w, Value: B(v)})
+			}
+		}
 		n := rapid.IntRange(1, 4).Draw(t, "nopts")
 		seen := map[string]bool{}
 		for i := 0; i < n; i++ {
@@ -1030,7 +1075,7 @@ func sortedOptNames(opts []Opt16) []string {
 
 var P16 = core.Register(core.Prop[Case16]{
 	ID: "C16",
-	Rule: "each case draws a clause and its data: no-options (canonicalizer.New(), url.NewParser(), WhatWg vs the package functions, incl. the empty base string); remove (any subset of remove-user-info / remove-port / remove-fragment vs the reference model's parse followed by the standard's setter steps, cross-checked with the real setters); sort (SortKeys / SortParameter / NoSort vs the sorted decoded list of the default parser's result); default-scheme (unaffected / parsed as scheme://input exactly when the reference model fails in the no-scheme state / still failing); neutral (1..4 of 14 parser options with generated encode sets and added schemes: if no option's trigger is present in the input text the result equals the default parser's); collapse-effect (no empty non-final segment in special paths, non-special untouched); encode-set-effect (a replaced set governs exactly its component and scheme class); canon-combo (any subset of the five canonicalizer options together vs the default parser's result with the default-scheme rule, the real setters and the sorted decoded list); skip-equals ('=' dropped exactly for empty values); special-scheme-effect (an added scheme parses like http with its own default port); " +
+	Rule: "each case draws a clause and its data: no-options (canonicalizer.New(), url.NewParser(), WhatWg vs the package functions, incl. the empty base string); remove (any subset of remove-user-info / remove-port / remove-fragment vs the reference model's parse followed by the standard's setter steps, cross-checked with the real setters); sort (SortKeys / SortParameter / NoSort vs the sorted decoded list of the default parser's result); default-scheme (unaffected / parsed as scheme://input exactly when the reference model fails in the no-scheme state / still failing); neutral (1..4 of 14 parser options with generated encode sets and added schemes: if no option's trigger is present in the input text — and in the values of up to three setter calls applied afterwards — the result equals the default parser's); collapse-effect (no empty non-final segment in special paths, non-special untouched); encode-set-effect (a replaced set governs exactly its component and scheme class); canon-combo (any subset of the five canonicalizer options together vs the default parser's result with the default-scheme rule, the real setters and the sorted decoded list); skip-equals ('=' dropped exactly for empty values); special-scheme-effect (an added scheme parses like http with its own default port); " +
 		"non-trivial = the clause's option actually applies to the input (its trigger / target is present), or at least 2 options combined with all triggers absent on a parsing input; distinct by hash of the case",
 	Gen:   Gen16,
 	Check: Check16,
